@@ -541,6 +541,12 @@ func stringsIntrinsic(name string, fn *ssa.Function) intrinsicFn {
 			}
 			return x.rtypeOf(iv.T)
 		}
+	case "crypto/rand.Text":
+		// a fresh identifier per call (26 characters like the library's); distinct calls give distinct strings
+		return func(x *Exec, _ *ssa.Function, a []Value) Value {
+			x.randN++
+			return mkStr(fmt.Sprintf("RND%05dABCDEFGHIJKLMNOPQR", x.randN))
+		}
 	case "reflect.Zero":
 		// reflect.Zero(t): a reflect.Value holding the zero value of t; only .Interface() is modelled
 		return func(x *Exec, f *ssa.Function, a []Value) Value {
